@@ -107,17 +107,23 @@ def _fallback_accessors(db):
 def _normalize_rules(db):
     f = db.one("normalize", "InfoSubset")
     rules = []
+    from ..origins import index as oindex
+    b = oindex(db).bindings(f)
+
+    def resolve(pathnode):
+        bd = b.get(pathnode.get("lid"))
+        return bd[1] if bd and bd[0] == "let" else None
     for n, _ in walk(f.hir):
         if n.get("k") == "If":
             c = peel(n["cond"])
             if c.get("k") == "MethodCall" and c.get("method") in ("intersects", "contains"):
-                ante = flag_names(c["args"][0])
+                ante = flag_names(c["args"][0], resolve)
                 cons = set()
                 for x, _ in walk(n["then"]):
                     if x.get("k") == "AssignOp" and x.get("op") == "BitOr":
-                        cons |= flag_names(x["r"])
+                        cons |= flag_names(x["r"], resolve)
                     if x.get("k") == "MethodCall" and x.get("method") in ("insert", "set"):
-                        cons |= flag_names(x["args"][0])
+                        cons |= flag_names(x["args"][0], resolve)
                 rules.append((c["method"], ante, cons))
     return f, rules
 
